@@ -313,6 +313,13 @@ fn apply_call(p: &mut Packet, c: &Value) {
         }
         "clear_option" => p.clear_option(CoapOption::from(a["num"].as_u64().unwrap() as u16)),
         "clear_all_options" => p.clear_all_options(),
+        "set_tkl" => p.header.set_token_length(a["n"].as_u64().unwrap() as u8),
+        "replace_header_raw" => {
+            // a whole new header as it comes: its token-length nibble may disagree with the stored token
+            let mid = a["mid"].as_u64().unwrap() as u16;
+            let raw = coap_lite::HeaderRaw::try_from(&[a["b"].as_u64().unwrap() as u8, a["code"].as_u64().unwrap() as u8, (mid >> 8) as u8, mid as u8][..]).unwrap();
+            p.header = coap_lite::Header::from_raw(&raw);
+        }
         "replace_header" => {
             // a whole new header (from raw bytes) whose token-length nibble matches the stored token
             let b = (a["b"].as_u64().unwrap() as u8 & 0xF0) | p.get_token().len() as u8;
@@ -382,6 +389,26 @@ pub fn rec_wire_build(args: &Args) {
             let c = random_call(&mut r);
             ev_call(&mut out, &mut p, c);
         }
+    }
+    // the header edited / replaced behind set_token's back, then set_token again (same and different values)
+    for k in 0..(if thorough { 400 } else { 60 }) {
+        out.ev(json!({"op": "reset"}));
+        let mut p = Packet::new();
+        let tl = r.below(9) as usize;
+        let tok = r.bytes(tl);
+        ev_call(&mut out, &mut p, jcall("set_token", json!({"v": jbytes(&tok)})));
+        if r.chance(1, 2) {
+            ev_call(&mut out, &mut p, jcall("add_option", json!({"num": 11, "v": [97]})));
+        }
+        if k % 2 == 0 {
+            ev_call(&mut out, &mut p, jcall("set_tkl", json!({"n": r.below(9)})));
+        } else {
+            ev_call(&mut out, &mut p, jcall("replace_header_raw", json!({"b": r.next() as u8, "code": *r.pick(&[1u8, 0x45, 0]), "mid": r.next() as u16})));
+        }
+        // the same token again (must re-synchronise the header), or another one
+        let again = if r.chance(2, 3) { tok.clone() } else { let n = r.below(9) as usize; r.bytes(n) };
+        ev_call(&mut out, &mut p, jcall("set_token", json!({"v": jbytes(&again)})));
+        ev_call(&mut out, &mut p, jcall("set_payload", json!({"v": [1, 2]})));
     }
     // directed: deltas that make each extension byte 242/243/255, No-Response first, long values
     let directed: Vec<Vec<Value>> = vec![
